@@ -243,3 +243,55 @@ Proof.
   exists [[1; 2; 3]; [9]]%N. split; [|vm_compute; reflexivity].
   vm_compute. intro H. discriminate H.
 Qed.
+
+(* ---- the glob() table function emits every assigned path exactly once ---- *)
+Lemma glob_pull_is_rev : forall {A} caps (l : list A),
+  Forall (fun c => 1 <= c) caps -> length l <= length caps -> glob_pull caps l = rev l.
+Proof.
+  intros A caps; induction caps as [|cap r IH]; intros l Hc Hl.
+  - destruct l; [reflexivity|cbn in Hl; lia].
+  - inversion Hc as [|? ? Hcap Hr]; subst. cbn [glob_pull].
+    destruct (Nat.min (length l) cap) as [|c'] eqn:Hm.
+    + destruct l as [|x l']; [reflexivity|]. cbn [length] in Hm. lia.
+    + set (count := S c') in *.
+      assert (Hle : count <= length l) by lia.
+      rewrite IH; [|exact Hr|].
+      * rewrite <- (skipn_rev count l). apply firstn_skipn.
+      * rewrite firstn_length. cbn [length] in Hl. lia.
+Qed.
+
+Lemma perm_flat_map_pointwise : forall {A B} (F G : A -> list B) ks,
+  (forall k, In k ks -> Permutation (F k) (G k)) -> Permutation (flat_map F ks) (flat_map G ks).
+Proof.
+  intros A B F G ks; induction ks as [|k r IH]; intro H; cbn [flat_map]; [constructor|].
+  apply Permutation_app; [apply H; left; reflexivity|]. apply IH. intros k' Hk; apply H; right; exact Hk.
+Qed.
+
+(* T: for any capacities >= 1 and enough polls, over all partitions, every path exactly once *)
+Lemma glob_table_function_exact : forall {A} (caps : nat -> list nat) p (paths : list A), 1 <= p ->
+  (forall k, k < p -> Forall (fun c => 1 <= c) (caps k) /\ length (deal p k paths) <= length (caps k)) ->
+  Permutation (glob_multi caps p paths) paths.
+Proof.
+  intros A caps p paths Hp Hc. destruct p as [|q]; [lia|]. unfold glob_multi, glob_part.
+  eapply Permutation_trans; [|apply (deal_union q paths)].
+  apply perm_flat_map_pointwise. intros k Hk. apply in_seq in Hk.
+  destruct (Hc k ltac:(lia)) as [H1 H2]. rewrite (glob_pull_is_rev (caps k) _ H1 H2).
+  apply Permutation_sym, Permutation_rev.
+Qed.
+
+Example glob_pull_hyps_sat :
+  glob_pull [2; 2; 2] [1; 2; 3; 4; 5] = [5; 4; 3; 2; 1] /\ Forall (fun c => 1 <= c) [2; 2; 2].
+Proof. split; [vm_compute; reflexivity|repeat constructor]. Qed.
+
+(* REFUTED without `.rev()`: leading paths repeat, trailing paths are never listed, the count is right *)
+Lemma glob_pull_norev_refuted :
+  exists caps (l : list nat), Forall (fun c => 1 <= c) caps /\ length l <= length caps /\
+    glob_pull_norev caps l = [1; 2; 1; 2; 1] /\ length (glob_pull_norev caps l) = length l /\
+    ~ Permutation (glob_pull_norev caps l) l.
+Proof.
+  exists [2; 2; 2; 2; 2], [1; 2; 3; 4; 5]. split; [repeat constructor|]. split; [cbn; lia|].
+  split; [vm_compute; reflexivity|]. split; [vm_compute; reflexivity|].
+  intro H. assert (In 5 (glob_pull_norev [2; 2; 2; 2; 2] [1; 2; 3; 4; 5])).
+  { eapply Permutation_in; [apply Permutation_sym; exact H|]. cbn. intuition. }
+  vm_compute in H0. intuition discriminate.
+Qed.
